@@ -88,6 +88,18 @@ def gen_doc(g, exact=True):
     else:
         log = g.log(book=g.book(exact=exact), exact=exact, unusual=0.3)
         recs = [(d.strftime('%Y/%m/%d').encode(), ents, ns) for d, ents, ns in log]
+    if recs and r.random() < 0.03:
+        # one long line (a food name of 4 to 60 KB, or a note of that size): below the 64 KiB limit it is a line like any other
+        n = r.choice([4090, 4096, 4097, 5000, 8192, 20000, 60000])
+        k = r.randrange(len(recs))
+        h, ents, ns = recs[k]
+        if ents and r.random() < 0.5:
+            j = r.randrange(len(ents))
+            ents = list(ents)
+            ents[j] = (b'long/' + b'n' * n, ents[j][1])
+        elif h[:4].isdigit():
+            ns = list(ns) + [(b'', b'z' * n)]
+        recs = recs[:k] + [(h, ents, ns)] + recs[k + 1:]
     lines = [g.render_record(h, ents, ns, True) for h, ents, ns in recs]
     src = g.render_file(lines, True)
     return src, recs
